@@ -607,9 +607,20 @@ where
         &mut self,
         diff: &Diff<T>,
     ) -> Result<(), Self::Error> {
-        self.insert_records(diff.patch.records(), true).await?;
-
-        let computed = self.tree().head()?;
+        // Verify the checkpoint before touching the database
+        // so that a refused request leaves the event log as it was
+        let computed = {
+            let mut hashes = diff
+                .patch
+                .records()
+                .iter()
+                .map(|r| *r.commit().as_ref())
+                .collect::<Vec<_>>();
+            let mut tree = CommitTree::new();
+            tree.append(&mut hashes);
+            tree.commit();
+            tree.head()?
+        };
         let verified = computed == diff.checkpoint;
         if !verified {
             return Err(Error::CheckpointVerification {
@@ -618,6 +629,8 @@ where
             }
             .into());
         }
+
+        self.insert_records(diff.patch.records(), true).await?;
 
         Ok(())
     }
